@@ -114,6 +114,22 @@ var Entries = []EntryT{
 	// an entry of the other network instance that points at a group of the default one (held until that group exists)
 	{Name: "ADD v4@V->1@D", NI: V, Op: spb.AFTOperation_ADD, E: ribx.V4Entry("10.0.0.0/8", 1, D, nil)},
 	{Name: "ADD v6@V->1@D", NI: V, Op: spb.AFTOperation_ADD, E: ribx.V6Entry("2001:db8::/32", 1, D, nil)},
+	// four entries per table of the default instance (streams: a Get of ANY table abandoned part-way)
+	{Name: "ADD nh3", NI: D, Op: spb.AFTOperation_ADD, E: ribx.NHEntry(3, "3.3.3.3")},
+	{Name: "ADD nh4", NI: D, Op: spb.AFTOperation_ADD, E: ribx.NHEntry(4, "4.4.4.4")},
+	{Name: "ADD nhg3{3}", NI: D, Op: spb.AFTOperation_ADD, E: ribx.NHGEntry(3, 0, [2]uint64{3, 1})},
+	{Name: "ADD nhg4{4}", NI: D, Op: spb.AFTOperation_ADD, E: ribx.NHGEntry(4, 0, [2]uint64{4, 1})},
+	{Name: "ADD v4b->2", NI: D, Op: spb.AFTOperation_ADD, E: ribx.V4Entry("10.1.0.0/16", 2, "", nil)},
+	{Name: "ADD v4c->3", NI: D, Op: spb.AFTOperation_ADD, E: ribx.V4Entry("10.2.0.0/16", 3, "", nil)},
+	{Name: "ADD v4d->4", NI: D, Op: spb.AFTOperation_ADD, E: ribx.V4Entry("10.3.0.0/16", 4, "", nil)},
+	{Name: "ADD v6a->1", NI: D, Op: spb.AFTOperation_ADD, E: ribx.V6Entry("2001:db8:1::/48", 1, "", nil)},
+	{Name: "ADD v6b->2", NI: D, Op: spb.AFTOperation_ADD, E: ribx.V6Entry("2001:db8:2::/48", 2, "", nil)},
+	{Name: "ADD v6c->3", NI: D, Op: spb.AFTOperation_ADD, E: ribx.V6Entry("2001:db8:3::/48", 3, "", nil)},
+	{Name: "ADD v6d->4", NI: D, Op: spb.AFTOperation_ADD, E: ribx.V6Entry("2001:db8:4::/48", 4, "", nil)},
+	{Name: "ADD mpls100->1", NI: D, Op: spb.AFTOperation_ADD, E: ribx.MPLSEntry(100, 1, "", nil)},
+	{Name: "ADD mpls101->2", NI: D, Op: spb.AFTOperation_ADD, E: ribx.MPLSEntry(101, 2, "", nil)},
+	{Name: "ADD mpls102->3", NI: D, Op: spb.AFTOperation_ADD, E: ribx.MPLSEntry(102, 3, "", nil)},
+	{Name: "ADD mpls103->4", NI: D, Op: spb.AFTOperation_ADD, E: ribx.MPLSEntry(103, 4, "", nil)},
 }
 
 func entryIdx(name string) int {
